@@ -370,26 +370,45 @@ impl_retracer!(proguard, "mapper", "cache");
 impl_retracer!(proguard_pinned, "pinned-mapper", "pinned-cache");
 
 /// 8-byte aligned owned byte buffer (watto aligns by pointer address; every real caller passes an mmap or an
-/// allocator-aligned buffer).
+/// allocator-aligned buffer). The allocation is EXACTLY `len` bytes long, so that under the AddressSanitizer build of
+/// the libFuzzer stage (and under valgrind / Miri) a read of even one byte behind the cache is a read behind the
+/// allocation and is reported, instead of landing in spare capacity.
 pub struct AlignedBuf {
-    store: Vec<u64>,
+    ptr: std::ptr::NonNull<u8>,
     len: usize,
+}
+
+unsafe impl Send for AlignedBuf {}
+unsafe impl Sync for AlignedBuf {}
+
+impl Drop for AlignedBuf {
+    fn drop(&mut self) {
+        if self.len > 0 {
+            unsafe { std::alloc::dealloc(self.ptr.as_ptr(), std::alloc::Layout::from_size_align(self.len, 8).unwrap()) }
+        }
+    }
 }
 
 impl AlignedBuf {
     pub fn new(bytes: &[u8]) -> AlignedBuf {
-        let mut store = vec![0u64; bytes.len().div_ceil(8) + 1];
         let len = bytes.len();
-        unsafe {
-            std::ptr::copy_nonoverlapping(bytes.as_ptr(), store.as_mut_ptr() as *mut u8, len);
+        if len == 0 {
+            // aligned, never dereferenced
+            return AlignedBuf { ptr: std::ptr::NonNull::<u64>::dangling().cast(), len };
         }
-        AlignedBuf { store, len }
+        let layout = std::alloc::Layout::from_size_align(len, 8).unwrap();
+        let ptr = unsafe { std::alloc::alloc(layout) };
+        let Some(ptr) = std::ptr::NonNull::new(ptr) else { std::alloc::handle_alloc_error(layout) };
+        unsafe {
+            std::ptr::copy_nonoverlapping(bytes.as_ptr(), ptr.as_ptr(), len);
+        }
+        AlignedBuf { ptr, len }
     }
     pub fn bytes(&self) -> &[u8] {
-        unsafe { std::slice::from_raw_parts(self.store.as_ptr() as *const u8, self.len) }
+        unsafe { std::slice::from_raw_parts(self.ptr.as_ptr(), self.len) }
     }
     pub fn bytes_mut(&mut self) -> &mut [u8] {
-        unsafe { std::slice::from_raw_parts_mut(self.store.as_mut_ptr() as *mut u8, self.len) }
+        unsafe { std::slice::from_raw_parts_mut(self.ptr.as_ptr(), self.len) }
     }
     pub fn len(&self) -> usize {
         self.len
